@@ -80,6 +80,11 @@ def gen_config(rng, want_cycle):
             a.setdefault("uses", []).append(strip(a["path"]) + "/self.txt")  # inside itself: no edge, no cycle
             continue
         if not is_acyclic(ts):
+            # the entry that closes the cycle may well be covered by the same target's `ignores`:
+            # that changes which changes the target disregards, not what it depends on
+            if rng.chance(1, 2) and a.get("uses"):
+                u = a["uses"][-1]
+                a.setdefault("ignores", []).append(u.rsplit("/", 1)[0] if "/" in u and rng.chance(1, 2) else u)
             return ts
     return ts
 
